@@ -373,6 +373,7 @@ func (p *ProjectRunner) addRunningProcess(process *Process) bool {
 	p.runProcMutex.Lock()
 	defer p.runProcMutex.Unlock()
 	if current, ok := p.runningProcesses[process.getName()]; ok && current != process && !current.isDone() {
+		verifTrace(process, "SpawnRefused")
 		return false
 	}
 	p.runningProcesses[process.getName()] = process
@@ -444,6 +445,7 @@ func (p *ProjectRunner) StopProcess(name string) error {
 		log.Error().Msgf("Process %s is not running", name)
 		return fmt.Errorf("process %s is not running", name)
 	}
+	verifTrace(proc, "StopReq")
 	err := proc.shutDownNoRestart()
 	if err != nil {
 		log.Err(err).Msgf("failed to stop process %s", name)
@@ -476,6 +478,7 @@ func (p *ProjectRunner) RestartProcess(name string) error {
 	log.Debug().Msgf("Restarting %s", name)
 	proc := p.getRunningProcess(name)
 	if proc != nil {
+		verifTrace(proc, "StopReq")
 		err := proc.shutDownNoRestart()
 		if err != nil {
 			log.Err(err).Msgf("failed to stop process %s", name)
